@@ -10,7 +10,9 @@
  *
  * Clock shifter (C23): if $IOREC_TIME_OFFSET is set, time(), gettimeofday() and clock_gettime
  * (CLOCK_REALTIME*) are shifted by that many seconds, so hidden uses of "now" show up as a
- * difference between two otherwise identical executions.
+ * difference between two otherwise identical executions. With $IOREC_TIME_FIXED the wall clock
+ * stands still at that epoch second (monotonic clocks are untouched), which separates clock
+ * dependence from other sources of non-determinism.
  *
  * Record: u32 total_len | u8 kind | u64 dev | u64 ino | i64 a | i64 b | u32 name_len | name |
  *         u32 data_len | data          (little endian, total_len counts everything after itself)
@@ -41,6 +43,7 @@ static int log_fd = -1;
 static char watch_dir[PATH_MAX];
 static size_t watch_len = 0;
 static long time_offset = 0;
+static long time_fixed = 0; /* IOREC_TIME_FIXED: the wall clock stands still at this epoch second */
 static int inited = 0;
 static pthread_mutex_t mu = PTHREAD_MUTEX_INITIALIZER;
 static __thread int inside = 0;
@@ -54,6 +57,8 @@ static void init(void) {
     const char *l = getenv("IOREC_LOG");
     const char *t = getenv("IOREC_TIME_OFFSET");
     if (t) time_offset = atol(t);
+    const char *tf = getenv("IOREC_TIME_FIXED");
+    if (tf) time_fixed = atol(tf);
     if (d && l) {
         if (realpath(d, watch_dir)) watch_len = strlen(watch_dir);
         REAL(open);
@@ -420,7 +425,7 @@ int close(int fd) {
 time_t time(time_t *t) {
     init();
     REAL(time);
-    time_t v = real_time(NULL) + time_offset;
+    time_t v = time_fixed ? (time_t)time_fixed : real_time(NULL) + time_offset;
     if (t) *t = v;
     return v;
 }
@@ -429,13 +434,15 @@ int gettimeofday(struct timeval *tv, void *tz) {
     static int (*real_gtod)(struct timeval *, void *);
     if (!real_gtod) real_gtod = dlsym(RTLD_NEXT, "gettimeofday");
     int r = real_gtod(tv, tz);
-    if (r == 0 && tv) tv->tv_sec += time_offset;
+    if (r == 0 && tv) { if (time_fixed) { tv->tv_sec = time_fixed; tv->tv_usec = 0; } else tv->tv_sec += time_offset; }
     return r;
 }
 int clock_gettime(clockid_t clk, struct timespec *ts) {
     init();
     REAL(clock_gettime);
     int r = real_clock_gettime(clk, ts);
-    if (r == 0 && ts && (clk == CLOCK_REALTIME || clk == CLOCK_REALTIME_COARSE)) ts->tv_sec += time_offset;
+    if (r == 0 && ts && (clk == CLOCK_REALTIME || clk == CLOCK_REALTIME_COARSE)) {
+        if (time_fixed) { ts->tv_sec = time_fixed; ts->tv_nsec = 0; } else ts->tv_sec += time_offset;
+    }
     return r;
 }
